@@ -136,7 +136,16 @@ pub fn free(seed: u64, runs: usize, dir: &str, maxlen: usize) {
                 Rec { id, desc, seq: s }
             })
             .collect();
-        let wrap = if i % 4 == 0 { 0 } else { rng.range(1, 200) as usize };
+        // one run holds a very long single-line record (beyond any reader buffer size) between two short ones
+        let huge = i == 5;
+        let recs: Vec<Rec> = if huge {
+            let big: Vec<u8> = (0..150_000).map(|_| *rng.pick(b"ACGTacgtN")).collect();
+            vec![Rec { id: b"s1".to_vec(), desc: None, seq: b"ACGT".to_vec() }, Rec { id: b"big".to_vec(), desc: Some(b"long one".to_vec()), seq: big },
+                 Rec { id: b"s2".to_vec(), desc: None, seq: b"TTGCA".to_vec() }]
+        } else {
+            recs
+        };
+        let wrap = if i % 4 == 0 || huge { 0 } else { rng.range(1, 200) as usize };
         let crlf = i % 5 == 1;
         let final_nl = i % 6 != 2;
         let lay = Layout { fastq, wrap, crlf, final_nl };
